@@ -58,6 +58,20 @@ def make_case(index, rng, tier):
             p["chunks"] = [c for c in (p["chunks"] or ["late"]) if c] or ["late"]
             p["headers"] = [h for h in p["headers"] if h[0] != "Content-Length"]
             p["cl"] = None
+    if not sub and rng.randrange(6) == 0:
+        # the error-handler idiom of PEP 3333: a first start_response whose status and headers (incl. a Content-Length that has nothing to do
+        # with the final body) are replaced by a second call with exc_info before anything was sent
+        p = progs[rng.randrange(n)]
+        if p["fail"] not in ("before_sr",):
+            p["first_sr"] = {"status": rng.choice(["200 OK", "500 First", "204 No Content"]),
+                             "headers": rng.choice([[["Content-Length", str(rng.choice([0, 3, 7, 100000]))]], [["X-First", "1"]],
+                                                    [["Content-Length", "5"], ["X-First", "1"]], [["Content-Type", "text/first"]]])}
+    if rng.randrange(5) == 0:
+        # a slow application: it waits (sleeps, does its own I/O) before some of its chunks - longer than the keep-alive time in some cases.
+        # The keep-alive timeout of the async workers bounds the wait for the NEXT request, never the application
+        p = progs[rng.randrange(n)]
+        if p["kind"] in ("iter", "write") and p["chunks"]:
+            p["delays"] = [rng.choice([0, 0, 0.5, 1.5, 3.0, 6.0]) for _ in p["chunks"]]
     fault = None
     k = rng.randrange(10)
     if k == 0:
